@@ -31,7 +31,9 @@ from exabgp.configuration.schema import (
     ActionKey,
 )
 
+from exabgp.configuration.static import parser as static_parser
 from exabgp.configuration.static.parser import prefix
+from exabgp.configuration.validator import LegacyParserValidator
 
 # Import and re-export _build_route for backward compatibility
 from exabgp.configuration.announce.route_builder import _build_route  # noqa: F401
@@ -88,6 +90,7 @@ class AnnounceIP(ParseAnnounce):
                 target=ActionTarget.ATTRIBUTE,
                 operation=ActionOperation.ADD,
                 key=ActionKey.NAME,
+                validator=LegacyParserValidator(parser_func=static_parser.atomic_aggregate, name='atomic-aggregate'),
             ),
             'aggregator': Leaf(
                 type=ValueType.AGGREGATOR,
@@ -102,6 +105,7 @@ class AnnounceIP(ParseAnnounce):
                 target=ActionTarget.ATTRIBUTE,
                 operation=ActionOperation.ADD,
                 key=ActionKey.NAME,
+                validator=LegacyParserValidator(parser_func=static_parser.originator_id, name='originator-id'),
             ),
             'cluster-list': LeafList(
                 type=ValueType.IP_ADDRESS,
@@ -109,6 +113,7 @@ class AnnounceIP(ParseAnnounce):
                 target=ActionTarget.ATTRIBUTE,
                 operation=ActionOperation.ADD,
                 key=ActionKey.NAME,
+                validator=LegacyParserValidator(parser_func=static_parser.cluster_list, name='cluster-list'),
             ),
             'community': LeafList(
                 type=ValueType.COMMUNITY,
@@ -137,6 +142,7 @@ class AnnounceIP(ParseAnnounce):
                 target=ActionTarget.ATTRIBUTE,
                 operation=ActionOperation.ADD,
                 key=ActionKey.NAME,
+                validator=LegacyParserValidator(parser_func=static_parser.aigp, name='aigp'),
             ),
             'attribute': Leaf(
                 type=ValueType.HEX_STRING,
@@ -144,6 +150,7 @@ class AnnounceIP(ParseAnnounce):
                 target=ActionTarget.ATTRIBUTE,
                 operation=ActionOperation.ADD,
                 key=ActionKey.NAME,
+                validator=LegacyParserValidator(parser_func=static_parser.attribute, name='attribute'),
             ),
             'name': Leaf(
                 type=ValueType.STRING,
@@ -151,6 +158,7 @@ class AnnounceIP(ParseAnnounce):
                 target=ActionTarget.ATTRIBUTE,
                 operation=ActionOperation.ADD,
                 key=ActionKey.NAME,
+                validator=LegacyParserValidator(parser_func=static_parser.name, name='name'),
             ),
             'split': Leaf(
                 type=ValueType.INTEGER,
@@ -158,6 +166,7 @@ class AnnounceIP(ParseAnnounce):
                 target=ActionTarget.ATTRIBUTE,
                 operation=ActionOperation.ADD,
                 key=ActionKey.NAME,
+                validator=LegacyParserValidator(parser_func=static_parser.split, name='split'),
             ),
             'watchdog': Leaf(
                 type=ValueType.STRING,
@@ -165,6 +174,7 @@ class AnnounceIP(ParseAnnounce):
                 target=ActionTarget.ATTRIBUTE,
                 operation=ActionOperation.ADD,
                 key=ActionKey.NAME,
+                validator=LegacyParserValidator(parser_func=static_parser.watchdog, name='watchdog'),
             ),
             'withdraw': Leaf(
                 type=ValueType.BOOLEAN,
@@ -172,6 +182,7 @@ class AnnounceIP(ParseAnnounce):
                 target=ActionTarget.ATTRIBUTE,
                 operation=ActionOperation.ADD,
                 key=ActionKey.NAME,
+                validator=LegacyParserValidator(parser_func=static_parser.withdraw, name='withdraw'),
             ),
         },
     )
